@@ -42,4 +42,5 @@ class SameID:
             "New tag definition: {}\n".format(cur)+
             "Group ID: {}".format(self.name))
       else:
+        self.set_datatype(tag, previous.get_datatype(tag))
         self.set(tag, prv)
